@@ -106,6 +106,19 @@ def rule_info_set(repo: Repo, rep: Report) -> int:
     rep.expect(ok, "INFO-SET", fi, "information mask = complement of the frozen set, as a length-N boolean mask", "exactly k information positions", "information mask construction changed")
     rd = [s for s in stmts_of(fi.body) if isinstance(s, ast.Assign) and unparse(s.targets[0]) == "self.rank"]
     rep.expect(len(rd) == 1 and unparse(rd[0].value) == "rank.Q.values" and any(b.startswith("rank = pd.read_csv(csv_path, sep=' ', index_col=0)") for b in body) and any("'rank_polar.csv'" in b for b in body), "INFO-SET", fi, "ranking = column Q of rank_polar.csv in file order", "the validated table is the one that is read", "the ranking is not read from rank_polar.csv column Q")
+    # the ranking that is sliced is the table and nothing else: every (re)definition of `rank_array` derives from self.rank
+    ra = [s for s in ast.walk(fi.node) if isinstance(s, (ast.Assign, ast.AugAssign)) and any(isinstance(t, ast.Name) and t.id == "rank_array" for t in (s.targets if isinstance(s, ast.Assign) else [s.target]))]
+    listed = ("np.asarray(self.rank)", "np.array(self.rank)", "np.asarray(rank.Q.values)", "self.rank", "numpy.asarray(self.rank)", "torch.as_tensor(self.rank)")
+    for s_ in ra:
+        v = unparse(s_.value)
+        n += 1
+        if v in listed:
+            rep.ok("INFO-SET", fi, f"ranking used: rank_array = {v}", "the 5G table as read", node=s_)
+        elif not any(isinstance(x, ast.Attribute) and attr_chain(x) in ("self.rank", "rank.Q", "rank.Q.values") or (isinstance(x, ast.Name) and x.id == "rank_array") for x in ast.walk(s_.value)):
+            rep.violation("INFO-SET", fi, f"ranking used: rank_array = {v[:80]}", "for some code lengths the positions are ranked by something other than the 5G reliability sequence (a re-definition that does not derive from the table): the information set is then not the one the property names - e.g. a BEC(0.5) Bhattacharyya ranking exchanges positions 6 and 9 for N = 16", node=s_)
+        else:
+            rep.undecided("INFO-SET", fi, f"ranking used: rank_array = {v[:80]}", "derivation of the ranking from the table not recognised", node=s_)
+    rep.floor("definitions of the ranking array", len(ra), 1)
     # user masks validated
     checks = [unparse(s.test) for s in stmts_of(fi.body) if isinstance(s, ast.If) and any(isinstance(x, ast.Raise) for x in s.body)]
     rep.shape("len(info_indices) != self.code_length" in checks and "torch.sum(info_indices) != self.code_dimension" in checks, (not checks) or (any("len(info_indices)" in c_ or "numel()" in c_ or "shape[0]" in c_ for c_ in checks) and not any(("sum" in c_ or "count_nonzero" in c_) and "code_dimension" in c_ for c_ in checks)), "INFO-SET", fi, "user mask: length N and exactly k ones, else ValueError", "an inadmissible mask is rejected", "user-supplied information masks are not validated (length N, exactly k ones)")
@@ -438,8 +451,33 @@ def rule_sc_shape(repo: Repo, rep: Report) -> int:
     return n + 1
 
 
+def rule_bp_decision(repo: Repo, rep: Report) -> int:
+    """The polar BP decoder's message estimate is a hard decision on beliefs that can be arbitrarily small (a chain of
+    check nodes multiplies tanh's): it must be taken from the sign.  `llr_to_bits` is round(sigmoid(-x)); for |x| below the
+    float resolution sigmoid gives exactly 0.5, which rounds (half to even) to 0 - a correctly negative belief then
+    decodes as 0.  Accepted: llr_to_bits / sign_to_bin of torch.sign(.), or a comparison with 0."""
+    fi = repo.func(PBP, "BeliefPropagationPolarDecoder.decode_iterative")
+    conv = repo.func(FU, "llr_to_bits")
+    saturating = any(isinstance(c, ast.Call) and (call_name(c) or "").split(".")[-1] in ("sigmoid", "tanh", "round", "exp") for c in ast.walk(conv.node))
+    n = 0
+    for r in returns_of(fi.node):
+        msg = r.value.elts[0] if isinstance(r.value, ast.Tuple) and r.value.elts else r.value
+        n += 1
+        what = f"message decision: {unparse(msg)}"
+        via_sign = any(isinstance(c, ast.Call) and call_name(c) in ("torch.sign", "torch.sgn") for c in ast.walk(msg)) or any(isinstance(c, ast.Compare) for c in ast.walk(msg))
+        if via_sign:
+            rep.ok("BP-DECISION", fi, what, "decided from the sign of the belief (exact for every magnitude)", node=r)
+        elif isinstance(msg, ast.Call) and call_name(msg) == "llr_to_bits" and saturating:
+            rep.violation("BP-DECISION", fi, what, "the belief goes through round(sigmoid(-x)) unsigned: for |x| below ~1.2e-7 (reached behind a few stacked check nodes with inputs of magnitude 0.5) sigmoid is exactly 0.5 and rounds to 0, so a correctly negative belief decodes as bit 0 - noise-free LLRs of small magnitude no longer return the message", node=r)
+        else:
+            rep.undecided("BP-DECISION", fi, what, "decision form not recognised", node=r)
+    rep.floor("polar BP message decisions", n, 1)
+    return n
+
+
 def run(repo: Repo, rep: Report, tier: str) -> None:
     n = rule_kernel(repo, rep)
+    n += rule_bp_decision(repo, rep)
     n += rule_rank_table(repo, rep)
     n += rule_info_set(repo, rep)
     n += rule_frozen_value(repo, rep)
